@@ -70,8 +70,28 @@ def exec_order(case):
     return rec
 
 
+def gen_cumint_square(rng, cid):
+    """two operated axes of EQUAL length, data on exactly their two dimensions, the metric stored with the same two
+    dimensions in the other order (same shape, another meaning of the positions in the buffer)"""
+    n = rng.randint(2, 4)
+    pos = rng.choice(["left", "right"])
+    axes = [{"name": f"a{k + 1}", "n": n, "pos": [["center", f"d{2 * k + 1}"], [pos, f"d{2 * k + 2}"]]} for k in range(2)]
+    ctor = gen.rand_ctor(rng, ["a1", "a2"])
+    dims = ["d1", "d3"]
+    rng.shuffle(dims)
+    axis = ["a1", "a2"]
+    rng.shuffle(axis)
+    data = {"dims": dims, "shape": [n, n], "flat": [rng.randint(-4, 4) for _ in range(n * n)]}
+    return {"id": cid, "ev": "Cumint", "op": "cumsum", "grid": {"axes": axes, "extra": [], "ctor": ctor},
+            "args": {"data": data, "axis": axis, "to": S(pos), "boundary": gen.rand_tagged(rng, ["a1", "a2"], gen.RULES, partial=True),
+                     "fill_value": gen.rand_tagged(rng, ["a1", "a2"], [-3, 0, 2], partial=True)},
+            "metric": {"dims": dims[::-1], "shape": [n, n], "flat": [rng.randint(1, 4) for _ in range(n * n)]}}
+
+
 def gen_cumint(rng, cid):
     """one or two operated axes; a metric registered for exactly that axis set at the data's position"""
+    if rng.random() < 0.12:
+        return gen_cumint_square(rng, cid)
     while True:
         c = c01.gen_case(rng, cid, ops=["cumsum"], ev="Cumint", maxelems=60)
         dims = c["args"]["data"]["dims"]
